@@ -227,8 +227,42 @@ def enum_adjacent(tier, seed):
     return cases, True
 
 
+def check_fresh(case, sub="fresh_export"):
+    """Export is deterministic: the same circuit built in fresh interpreters with different PYTHONHASHSEED values exports to the same
+    openQASM text and the same JSON text"""
+    import os
+    import subprocess
+    import sys
+
+    from ..core import HOME
+
+    outs = []
+    for hs in case["hashseeds"]:
+        env = dict(os.environ, PYTHONHASHSEED=str(hs))
+        r = subprocess.run([sys.executable, "-m", "vf.props.c14_worker"], input=json.dumps(case), env=env, capture_output=True, text=True,
+                           timeout=600, cwd=HOME)
+        if r.returncode != 0:
+            raise Violation(sub, "exception:subprocess", "export", "batch", r.stderr[-400:])
+        outs.append(json.loads(r.stdout.strip().splitlines()[-1]))
+    for k, desc in enumerate(case["circuits"]):
+        for o in outs[1:]:
+            for idx, what in ((0, "to_openqasm"), (1, "to_json"), (2, "copy().to_openqasm")):
+                if o[k][idx] != outs[0][k][idx]:
+                    raise Violation(sub, "export-nondeterministic", what, "PYTHONHASHSEED",
+                                    "circuit %d exports differently under another PYTHONHASHSEED: %s" % (k, json.dumps(desc)[:300]))
+    return Info(nontrivial=True, classes=["fresh_interpreters"])
+
+
+def strat_fresh(tier):
+    small = gc.st_circuit(max_q=5, max_len=25, max_c=3)
+    return st.fixed_dictionaries({"circuits": st.lists(st.one_of(small, st_big_circuit()), min_size=40, max_size=40),
+                                  "hashseeds": st.just([1, 2, 3])})
+
+
 SUBS = [
     Sub("roundtrip", check, strategy=strat, n={"quick": 120, "thorough": 3000}),
     Sub("adjacent", lambda c: check(c, "roundtrip"), enum=enum_adjacent,
         doc="every ordered pair of %d operation kinds adjacent on the same and on different registers, bare and embedded" % len(KINDS)),
+    Sub("fresh_export", check_fresh, strategy=strat_fresh, n={"quick": 1, "thorough": 16}, shrink=False, timeout={"quick": 600, "thorough": 900},
+        doc="batches of 40 circuits exported in three fresh interpreters with different PYTHONHASHSEED values: identical openQASM and JSON texts"),
 ]
